@@ -184,7 +184,7 @@ pub fn rich_objects() -> Vec<(u64, Val)> {
         ),
     ));
     o.push((38, Val::dict(vec![("ProcSet", Val::Array(vec![Val::name("PDF")]))])));
-    o.push((37, Val::dict(vec![("Title", Val::str("the title")), ("Author", Val::str("harness")), ("CreationDate", Val::str("D:20240101000000Z"))])));
+    o.push((37, Val::dict(vec![("Title", Val::str("the title")), ("Author", Val::str("harness")), ("CreationDate", Val::str("D:20240101000000Z")), ("Subject", Val::Str(vec![0xfe, 0xff, 0x00, 0x54, 0xd8, 0x3d, 0xde, 0x00, 0x20, 0xac])), ("Keywords", Val::Str(vec![0xef, 0xbb, 0xbf, b'k', 0xc3, 0xa9]))])));
     o
 }
 
